@@ -268,9 +268,10 @@ impl DesignSpaceDocument {
 }
 
 impl Rules {
-    /// Returns `true` if there are no rules.
+    /// Returns `true` if there are no rules and the processing mode is the default,
+    /// i.e. if omitting the `<rules>` element loses nothing.
     fn is_empty(&self) -> bool {
-        self.rules.is_empty()
+        self.rules.is_empty() && self.processing == RuleProcessing::default()
     }
 }
 
